@@ -741,6 +741,14 @@ class CausalGraph(HasIdentifier, HasMetadata, CanDictSerialize, CanDictDeseriali
             edge.destination
         )
 
+        # raise an error if an edge from source to destination has already been defined. This can only happen if the
+        # edge class re-oriented the edge (e.g. to respect time) after the duplication check on the provided nodes.
+        if self._edges_by_source[source].get(destination) is not None:
+            raise CausalGraphErrors.EdgeDuplicatedError(
+                f'An edge already exists between {source} and {destination}. '
+                f'Please modify or delete this and then create the new edge explicitly.'
+            )
+
         # raise an error if reverse edge from destination to source has already been defined
         if self._edges_by_source[destination].get(source) is not None:
             raise CausalGraphErrors.ReverseEdgeExistsError()
